@@ -140,6 +140,17 @@ def run(ctx):
                 dr = g.drawing()
                 pkg.body.append(X("w:p", {}, [X("w:r", {}, [dr, dr, dr]), X("w:r", {}, [dr])]))
                 conv = ["data_uri", "counting", "no_open"][i - 2]
+            elif i in (5, 6, 7):
+                # a picture WITH a description, under the converters that return their own alt (a text, or the empty string) and under one that returns none
+                from mammoth.docx.xmlparser import element as X
+                g = gen_xml.XGen(rng, textboxes=False, notes=False, comments=False, deleted=False, fields=False, linked_rate=0.0, anomalies=0.0)
+                pkg = g.package(1)
+                dr = g.drawing()
+                for n_ in [dr] + list(dr.children):
+                    if getattr(n_, "name", None) in ("wp:inline", "wp:anchor"):
+                        n_.children[:] = [X("wp:docPr", {"descr": "a described picture", "title": "its title"})] + [c for c in n_.children if c.name != "wp:docPr"]
+                pkg.body.append(X("w:p", {}, [X("w:r", {}, [dr])]))
+                conv = ["counting_alt_empty", "counting_alt", "counting"][i - 5]
             opts = {"style_map": None, "include_default_style_map": True, "include_embedded_style_map": True,
                     "ignore_empty_paragraphs": True, "id_prefix": None, "conv": conv}
             data, parts = B.build(pkg)
